@@ -86,7 +86,8 @@ class C11(Prop):
     id = "C11"
     required = ["C11.collect_eq_walk", "C11.tiling", "C11.error_last", "C11.fuel_irrelevant", "C11.step_none_stable", "C11.next_ok_at", "C11.header_tlvs_unspec"]
     rule = ("every string over {0,1,2,3,255} up to length 8 (quick) / 10 (thorough), well-formed sections with every truncation, "
-            "sections of accepted headers; non-trivial = distinct sections with >= 2 items or an error item")
+            "sections of accepted headers; non-trivial = distinct sections with >= 2 items or an error item"
+            " Also: every section of at most 2 bytes, type-shaped TLVs (CRC32C, unique id around 128, SSL with sub-TLVs), long text values; collect/count/last/size_hint/nth/skip/step_by/by_ref/copies compared with the next() sequence.")
 
     def gen(self, tier, rng):
         ops = []
@@ -245,7 +246,8 @@ class C17(Prop):
     id = "C17"
     required = ["C17.incomplete_exact", "C17.partial_exact", "C17.partial_completion", "C17.partial_progress", "C17.truncated_exact", "C17.partial_iff", "C17.incomplete_iff"]
     rule = ("every cut of generated headers, all valid control pairs x declared lengths, completion with random bytes; "
-            "non-trivial = distinct (control pair, have, need) triples of incomplete results")
+            "non-trivial = distinct (control pair, have, need) triples of incomplete results"
+            " Also: declared lengths below the family block with 0..length-1 bytes present (must already be terminal).")
 
     def gen(self, tier, rng):
         ops = []
